@@ -187,7 +187,15 @@ func verifyCarrying(m ref.Tx, s int, ht int, afterGenesis bool, carry *ref.In) e
 	if afterGenesis {
 		opts = append(opts, interpreter.WithAfterGenesis())
 	}
-	return interpreter.NewEngine().Execute(opts...)
+	// an engine is the caller's object and may have served other executions before - without a
+	// transaction, or one that failed
+	eng := interpreter.NewEngine()
+	if (len(m.In[s].Unlock)+len(m.Out)+s)%2 == 0 {
+		one := bscript.NewFromBytes([]byte{0x51})
+		_ = eng.Execute(interpreter.WithScripts(one, bscript.NewFromBytes([]byte{0x51})))
+		_ = eng.Execute(interpreter.WithScripts(bscript.NewFromBytes([]byte{0x00, 0x69}), one), interpreter.WithAfterGenesis())
+	}
+	return eng.Execute(opts...)
 }
 
 // ---- mutations and the commitment table ----------------------------------------
@@ -385,10 +393,29 @@ func check(ctx *pbt.Ctx, c Case) error {
 	}
 	switch c.Path {
 	case "FillInput":
+		if c.Salt%5 == 1 {
+			// the same thing by hand: ask the unlocker for the script and install it
+			us, uerr := simple.UnlockingScript(context.Background(), tx, bt.UnlockerParams{InputIdx: uint32(s), SigHashFlags: flag})
+			if uerr != nil {
+				return fmt.Errorf("Simple.UnlockingScript(%s, input %d) failed: %v", typeName(ht), s, uerr)
+			}
+			err = tx.InsertInputUnlockingScript(uint32(s), us)
+			ctx.Label("signed_via_UnlockingScript+InsertInputUnlockingScript")
+			break
+		}
 		err = tx.FillInput(context.Background(), simple, bt.UnlockerParams{InputIdx: uint32(s), SigHashFlags: flag})
 	case "FillInputDefault":
 		if ht != 0x41 {
 			harnessError("FillInputDefault with type 0x%02x", ht)
+		}
+		if c.Salt%5 == 1 {
+			us, uerr := simple.UnlockingScript(context.Background(), tx, bt.UnlockerParams{InputIdx: uint32(s)})
+			if uerr != nil {
+				return fmt.Errorf("Simple.UnlockingScript(default type, input %d) failed: %v", s, uerr)
+			}
+			err = tx.InsertInputUnlockingScript(uint32(s), us)
+			ctx.Label("signed_via_UnlockingScript+InsertInputUnlockingScript(default)")
+			break
 		}
 		err = tx.FillInput(context.Background(), simple, bt.UnlockerParams{InputIdx: uint32(s)})
 	case "FillAllInputs":
